@@ -115,6 +115,11 @@ func (ex *Exec) stmt(s ast.Stmt) {
 	case *ast.GoStmt:
 		ex.unsupported = "goroutine start at " + ex.P.pos(x)
 	case *ast.DeferStmt:
+		if lit, isLit := unparen(x.Call.Fun).(*ast.FuncLit); isLit && isRecoverIdiom(lit) && ex.isCmdPkg() && len(ex.loops) == 0 {
+			// in the CLI a panic is the failure exit (status 2): a deferred recover turns it back into a normal return
+			ex.deferred = append(ex.deferred, &deferred{recoverLit: lit, regPC: ex.st.pc})
+			return
+		}
 		if lit, isLit := unparen(x.Call.Fun).(*ast.FuncLit); isLit && isRecoverIdiom(lit) {
 			// defer func() { if r := recover(); r != nil { <set results> } }(): only runs its body on a panicking path, and
 			// panics are not control flow in this model (each panic site is its own safe: obligation), so returns are unaffected
